@@ -1,6 +1,8 @@
 package main
 
 import (
+	"fmt"
+
 	"github.com/semihalev/twig"
 )
 
@@ -129,6 +131,125 @@ func c20AfterPrefixOperators(res *Result) {
 		if got != tc[1] {
 			res.add(Finding{Kind: "oracle", Where: "after-prefix-operators", Case: Case{"stream": "after-prefix-operators", "tpl": tc[0]}, Expected: tc[1], Observed: got,
 				Detail: "the attribute is read from the value the name stands for; the prefix operator applies to what was read"})
+		}
+	}
+}
+
+// two types of one shape, so that one can be looked up by a lenient engine first and the other not
+type C20ShapeA struct{ Name string }
+type C20ShapeB struct{ Name string }
+type C20ShapeC struct{ Name string }
+type C20ShapeD struct{ Name string }
+
+// c20StrictAndLenientEngines: whatever SetStrictVars(true) makes of a member that does not exist, it makes the same of
+// it for a type some other engine looked the member up on before and for a type nobody has looked at.
+func c20StrictAndLenientEngines(res *Result) {
+	tpls := []string{"[{{ x.Nope }}]", "[{{ x.Nope|default('d') }}]", "[{% if x.Nope %}y{% else %}n{% endif %}]", "[{{ x.Name }}{{ x.nope }}]", "[{{ x.Nope.Deeper }}]"}
+	outcome := func(e *twig.Engine, name string, v interface{}) string {
+		out, err := e.Render(name, map[string]interface{}{"x": v})
+		if err != nil {
+			return "error"
+		}
+		return "out:" + out
+	}
+	for ti, src := range tpls {
+		res.Hist["stream:strict-and-lenient-engines"]++
+		lenient := twig.New()
+		lenient.RegisterString("t", src)
+		strict := twig.New()
+		strict.SetStrictVars(true)
+		strict.RegisterString("t", src)
+		var seen, fresh, seenP, freshP interface{}
+		if ti%2 == 0 {
+			seen, fresh, seenP, freshP = C20ShapeA{"n"}, C20ShapeB{"n"}, &C20ShapeC{"n"}, &C20ShapeD{"n"}
+		} else {
+			seen, fresh, seenP, freshP = C20ShapeB{"n"}, C20ShapeA{"n"}, &C20ShapeD{"n"}, &C20ShapeC{"n"}
+		}
+		outcome(lenient, "t", seen)
+		outcome(lenient, "t", seenP)
+		res.Evaluations += 4
+		a, b := outcome(strict, "t", seen), outcome(strict, "t", fresh)
+		ap, bp := outcome(strict, "t", seenP), outcome(strict, "t", freshP)
+		c := Case{"stream": "strict-and-lenient-engines", "tpl": src}
+		if a != b || ap != bp {
+			res.add(Finding{Kind: "oracle", Where: "strict-and-lenient-engines", Case: c, Expected: "the same outcome for two types of one shape: " + b + " / " + bp, Observed: a + " / " + ap,
+				Detail: "the first type was looked up by an engine without strict variables before; the answer depends on which types were looked up earlier"})
+			continue
+		}
+		// the same engine, switched to strict after it served a lenient request
+		e := twig.New()
+		e.RegisterString("t", src)
+		type local1 struct{ Name string }
+		type local2 struct{ Name string }
+		outcome(e, "t", local1{"n"})
+		e.SetStrictVars(true)
+		if x, y := outcome(e, "t", local1{"n"}), outcome(e, "t", local2{"n"}); x != y {
+			res.add(Finding{Kind: "oracle", Where: "strict-and-lenient-engines/switched", Case: c, Expected: y, Observed: x,
+				Detail: "one engine, SetStrictVars(true) called after a first render: a type rendered before and a type of the same shape not rendered before"})
+		}
+	}
+}
+
+// C20Sequence hands out 1, 2, 3, ...: every evaluation of x.Next is a call.
+type C20Sequence struct{ n int }
+
+func (s *C20Sequence) Next() int { s.n++; return s.n }
+
+type C20Cart struct{ Items []int }
+
+func (c *C20Cart) Total() int {
+	t := 0
+	for _, i := range c.Items {
+		t += i
+	}
+	return t
+}
+func (c *C20Cart) Count() int { return len(c.Items) }
+
+// c20MethodsAreCalledEachTime: x.Method on a pointer is the value the method returns now: at every evaluation within a
+// render, and in the next render after the caller changed the value the pointer points to.
+func c20MethodsAreCalledEachTime(res *Result) {
+	e := twig.New()
+	e.RegisterString("row", "{{ ids.Next }}")
+	e.RegisterString("summary", "{{ cart.Total }}/{{ cart.Count }}")
+	cases := []struct{ name, src, want string }{
+		{"three reads", "{{ ids.Next }}-{{ ids.Next }}-{{ ids.Next }}", "1-2-3"},
+		{"in a loop", "{% for f in ['name', 'mail', 'city'] %}{{ f }}-{{ ids.Next }} {% endfor %}", "name-1 mail-2 city-3 "},
+		{"through includes", "{% include 'row' %}{% include 'row' %}{{ ids.Next }}", "123"},
+		{"set and condition", "{% set a = ids.Next %}{% if ids.Next == 2 %}two{% endif %}{{ a }}{{ ids.Next }}", "two13"},
+	}
+	for _, tc := range cases {
+		res.Hist["stream:methods-are-called-each-time"]++
+		res.Evaluations++
+		if e.RegisterString("t", tc.src) != nil {
+			continue
+		}
+		got, err := e.Render("t", map[string]interface{}{"ids": &C20Sequence{}})
+		if err != nil {
+			got = "error: " + err.Error()
+		}
+		if got != tc.want {
+			res.add(Finding{Kind: "oracle", Where: "methods-are-called-each-time/" + tc.name, Case: Case{"stream": "methods-are-called-each-time", "tpl": tc.src}, Expected: tc.want, Observed: got,
+				Detail: "ids is a pointer whose method Next returns 1, 2, 3, ...: each x.Next in the template is the value of a call"})
+		}
+	}
+	// across renders: the caller's cart changes between two renders of one page
+	e.RegisterString("page", "{{ cart.Total }}/{{ cart.Count }} {% include 'summary' %}")
+	cart := &C20Cart{Items: []int{10}}
+	for round := 0; round < 3; round++ {
+		for _, items := range [][]int{{10}, {10, 10}, {5, 5, 5}, {}} {
+			cart.Items = items
+			want := fmt.Sprintf("%d/%d %d/%d", cart.Total(), cart.Count(), cart.Total(), cart.Count())
+			res.Evaluations++
+			got, err := e.Render("page", map[string]interface{}{"cart": cart})
+			if err != nil {
+				got = "error: " + err.Error()
+			}
+			if got != want {
+				res.add(Finding{Kind: "oracle", Where: "methods-are-called-each-time/across renders", Case: Case{"stream": "methods-are-called-each-time", "tpl": "{{ cart.Total }}/{{ cart.Count }} {% include 'summary' %}", "items": fmt.Sprint(items)},
+					Expected: want, Observed: got, Detail: "the same *Cart is handed to successive renders; its items changed in between"})
+				return
+			}
 		}
 	}
 }
